@@ -2721,7 +2721,73 @@ fn c14_hammer(seed: u64, round: usize, out: &mut String, st: &mut Stats) -> bool
         }
         st.count("cold_start_concurrent_scans", reps * 4);
     }
-    // --- builds: cache hits through add_patterns, misses, failing builds
+    // --- simultaneous FIRST builds of one configuration through `add_patterns` (the simple builder's
+    // path into the cache): 6 threads behind a barrier, a new pattern list every repetition
+    {
+        let reps = 120usize;
+        let mut bad: Option<String> = None;
+        for rep in 0..reps {
+            let pats: Vec<String> = vec![format!("s{}_{}_{}", seed % 1000, round, rep), "[a-c]+".to_string(), " +".to_string()];
+            let probe = format!("s{}_{}_{} ab", seed % 1000, round, rep);
+            let want = format!("0:0:{} 2:{}:{} 1:{}:{}", probe.len() - 3, probe.len() - 3, probe.len() - 2, probe.len() - 2, probe.len());
+            let barrier = Arc::new(std::sync::Barrier::new(6));
+            let (tx, rx) = std::sync::mpsc::channel::<Result<String, ()>>();
+            for _ in 0..6 {
+                let (pats, probe, barrier, tx) = (pats.clone(), probe.clone(), barrier.clone(), tx.clone());
+                std::thread::spawn(move || {
+                    barrier.wait();
+                    let r = catch_unwind(AssertUnwindSafe(|| match ScannerBuilder::new().add_patterns(pats).build() {
+                        Ok(s) => tokens_of(&s, &probe),
+                        Err(_) => "builderr".to_string(),
+                    }));
+                    let _ = tx.send(r.map_err(|_| ()));
+                });
+            }
+            drop(tx);
+            for _ in 0..6 {
+                match rx.recv_timeout(std::time::Duration::from_secs(20)) {
+                    Ok(Ok(got)) => {
+                        if got != want && bad.is_none() {
+                            bad = Some(format!("simultaneous first builds through add_patterns (repetition {}): [{}] but sequentially [{}]", rep, got, want));
+                        }
+                    }
+                    Ok(Err(())) => {
+                        if bad.is_none() {
+                            bad = Some(format!("a simultaneous first build through add_patterns panicked (repetition {})", rep));
+                        }
+                    }
+                    Err(_) => {
+                        if bad.is_none() {
+                            bad = Some(format!("a simultaneous first build through add_patterns did not return within 20 s (repetition {})", rep));
+                        }
+                    }
+                }
+            }
+            if bad.is_some() {
+                break;
+            }
+        }
+        match bad {
+            None => out.push_str("oracle ok\nexpect oracle\n"),
+            Some(b) => {
+                let _ = writeln!(out, "oracle FAIL {}\nexpect oracle", b);
+                // the cache may be poisoned or locked now: nothing further can be judged
+                return true;
+            }
+        }
+        st.count("simultaneous_first_builds_through_add_patterns", reps * 6);
+    }
+    // --- builds: cache hits through add_patterns, misses, failing builds, and (one thread) cached
+    // builds of a configuration read through serde with an unsorted transition table
+    let unsorted_cfg: Option<(Vec<scnr::ScannerMode>, String, String)> = {
+        let text = format!(
+            r#"[{{"name":"U{}_{}","patterns":[{{"pattern":"x","token_type":5}},{{"pattern":"y","token_type":2}},{{"pattern":"z","token_type":9}}],"transitions":[[5,1],[2,1]]}},{{"name":"V","patterns":[{{"pattern":"[xyz]","token_type":1}}],"transitions":[]}}]"#,
+            seed % 1000, round
+        );
+        // (expected tokens written out: `y` has no transition because the lookup stops at the first
+        // larger token type, `x` switches to the second mode)
+        serde_json::from_str::<Vec<scnr::ScannerMode>>(&text).ok().map(|ms| (ms, "yzxz".to_string(), "2:0:1 9:1:2 5:2:3 1:3:4".to_string()))
+    };
     let simple: Vec<String> = vec![format!("h{}_{}", seed % 1000, round), "[a-c]+".to_string(), "\\s+".to_string()];
     let probe = format!("h{}_{} ab ", seed % 1000, round);
     let exp_simple = match ScannerBuilder::new().add_patterns(simple.clone()).build() {
@@ -2733,9 +2799,22 @@ fn c14_hammer(seed: u64, round: usize, out: &mut String, st: &mut Stats) -> bool
     let total_per_thread = 1500usize;
     for t in 0..n_threads {
         let (simple, probe, exp_simple, progress, tx) = (simple.clone(), probe.clone(), exp_simple.clone(), progress.clone(), tx.clone());
+        let unsorted_cfg = unsorted_cfg.clone();
         std::thread::spawn(move || {
             let mut bad = None;
             for k in 0..total_per_thread {
+                if t == 7 && k % 50 == 10 {
+                    if let Some((ms, uprobe, want)) = &unsorted_cfg {
+                        let got = match catch_unwind(AssertUnwindSafe(|| ScannerBuilder::new().add_scanner_modes(ms).build())) {
+                            Ok(Ok(s)) => tokens_of(&s, uprobe),
+                            Ok(Err(_)) => "builderr".to_string(),
+                            Err(_) => "panic".to_string(),
+                        };
+                        if got != *want && bad.is_none() {
+                            bad = Some(format!("thread {} cached build #{} of a configuration with an unsorted transition table (read through serde): [{}] but uncached [{}]", t, k, got, want));
+                        }
+                    }
+                }
                 if t < 5 {
                     // hit
                     let got = match ScannerBuilder::new().add_patterns(simple.clone()).build() {
